@@ -74,7 +74,7 @@ func ruleR31() *Rule {
 				fields := sp.Fields
 				if fields == nil {
 					for j := 0; j < st.NumFields(); j++ {
-						fields = append(fields, st.Field(j).Name())
+						fields = append(fields, canonFieldName(sp.Struct, st, j))
 					}
 				}
 				bit := map[string]uint64{}
@@ -292,7 +292,7 @@ func ruleR32() *Rule {
 							}
 							if !isK {
 								// docNum == lastDocNum
-								if x.Op == token.EQL && towardsTrue {
+								if (x.Op == token.EQL && towardsTrue) || (x.Op == token.NEQ && !towardsTrue) {
 									for _, side := range []ssa.Value{x.X, x.Y} {
 										if uu, ok := side.(*ssa.UnOp); ok {
 											if cc := cellOf(uu.X); cc != nil && cc.Comment == "lastDocNum" {
@@ -453,9 +453,18 @@ func ruleR34() *Rule {
 			}
 			// PutUvarint calls feeding the returned byte slice, in order
 			var puts []*ssa.Call
-			eachInstr(fn, func(_ *ssa.BasicBlock, in ssa.Instruction) {
+			encFn, encRet := fn, oneHit
+			if call, ok := root(oneHit.Results[3]).(*ssa.Call); ok {
+				// the bytes are built by a helper method on the same iterator
+				if h := call.Call.StaticCallee(); h != nil && c.p.InZap(h) && len(call.Call.Args) > 0 && root(call.Call.Args[0]) == ssa.Value(fn.Params[0]) {
+					if rets := returnsOf(h); len(rets) == 1 {
+						encFn, encRet = h, rets[0]
+					}
+				}
+			}
+			eachInstr(encFn, func(_ *ssa.BasicBlock, in ssa.Instruction) {
 				if call, ok := in.(*ssa.Call); ok {
-					if f := call.Call.StaticCallee(); f != nil && f.String() == "encoding/binary.PutUvarint" && (call.Block() == oneHit.Block() || call.Block().Dominates(oneHit.Block())) {
+					if f := call.Call.StaticCallee(); f != nil && f.String() == "encoding/binary.PutUvarint" && (call.Block() == encRet.Block() || call.Block().Dominates(encRet.Block())) {
 						puts = append(puts, call)
 					}
 				}
